@@ -80,8 +80,9 @@ CLAIMED = {
         text="Lean theorems for every record list and every pad length n: with tolerance on, the availability-mask DTC parsers return the encoded records, plus one DTC 0 per whole all-zero "
              "record of the padding when ignore_all_zero_dtc is off (n / record size of them), dropping a partial record; with tolerance off, n not a multiple of the record size is an invalid "
              "response while whole zero records are still parsed; read_memory_by_address trims / refuses; IO control with a fixed-length codec trims / refuses; the WWH-OBD, fault-counter, "
-             "extended-data and ReadDataByIdentifier (fixed-length codecs) parsers: zero padding tolerated when the option is on, one or two pad bytes refused when it is off. The snapshot and "
-             "RequestFileTransfer parsers are modelled and tied by the correspondence suite (partial). Domain extracted from the "
+             "extended-data (by DTC and by record number), snapshot (by DTC and by record number) and ReadDataByIdentifier (fixed-length codecs) parsers: zero padding tolerated when the option "
+             "is on, refused when it is off; RequestFileTransfer for EVERY reply accepted without tolerance (append-stability of the field parsers): d ++ zeros decodes to the same value with "
+             "tolerance and is invalid without. The 0x16 known finding is itself a theorem (two whole zero records are refused). Domain extracted from the "
              "docstrings on every run (31 methods). Known finding: sub-function 0x16 rejects two whole zero records. Tied by every valid reply x pad 0..2*record+1 x 4 settings.",
         design_ref='DESIGN.md §3 C11',
         technique='Lean 4 proof (strong induction on the pad length, prefix lemma by list induction) + docstring-extracted domain + differential correspondence'),
@@ -93,7 +94,10 @@ CLAIMED = {
              "does not itself overwrite the data (ECU frame invariants + induction over the history). The model client keeps nothing between calls; that the real client keeps nothing either "
              "is decided by the history correspondence: random long histories over one long-lived real client (configuration changes, reused and re-pointed MemoryLocation objects, failing calls) "
              "whose every frame goes to the Lean ECU, against the same calls through the Lean client model with its own ECU copy, compared per call and on the final ECU state, plus a Python shadow "
-             "store as P_spec on the implementation. Upload: request_upload + enough pulls returns exactly the stored bytes. Partial: user codecs are identity on raw bytes.",
+             "store as P_spec on the implementation. Upload: request_upload + enough pulls returns exactly the stored bytes. The library's own codecs (DidCodec(packstr), i.e. str entries of data_identifiers, and AsciiCodec) are modelled "
+             "over a model of struct's integer subset (byte order, counts, pad bytes, native alignment): decode (encode v) = v, payload length = len(codec), out-of-range values refused (never "
+             "wrapped), and the value-level read-back through the rig after any history (value_survives_history); struct itself is standard library: modelled, tied by the codec suite. "
+             "Partial: user-written codecs are identity on raw bytes.",
         design_ref='DESIGN.md §3 C12',
         technique='Lean 4 proof (refinement to a reference ECU: round-trip theorems for all states, induction over block lists and call histories) + history differential suite with the Lean ECU in the loop',
         note=NOTE + ' Known finding: identifier 0x0000 through the default codec with an all-zero value under zero-padding tolerance (excluded point of the theorem, proved to fail in the model, reproduced on the code).'),
@@ -144,7 +148,8 @@ CLAIMED = {
              "read_dtc_information's echo-first error ordering) and for ALL byte strings, the model returns or fails with a documented outcome - IndexError / struct.error / ... are unreachable "
              "(Safe combinators; strong induction on the remaining bytes for each loop; the snapshot cursor provably advances). Termination of every parser loop is Lean's own termination check. "
              "Hypotheses: the client configuration is valid (DID size 1..8, extended-data size given) and the sub-function was accepted by make_request. Parsing of the frame itself: C17 parse_total. "
-             "Tied by ~10 k (thorough 170 k) truncated / mutated / extended replies per run on the real client with a step budget, all switches on and off, and codecs whose decode raises.",
+             "Tied by ~10 k (thorough 170 k) truncated / mutated / extended replies per run on the real client with a step budget, all switches on and off, codecs whose decode raises, and a "
+             "frame-level suite: every client entry point x whole frames as the connection delivers them (empty, 7F alone, 7F + id, truncated negative responses, foreign ids, junk; also after 0x78).",
         design_ref='DESIGN.md §3 C04',
         technique='Lean 4 proof (unreachability of undocumented errors for all inputs; termination by well-founded recursion) + differential fuzz correspondence'),
     'C07': dict(
